@@ -582,11 +582,13 @@ func (r *runner) do(op Op) (*sx.Node, error) {
 		}
 		if rp.err != nil {
 			class := classifyNewErr(rp.err.Error())
-			if class == "deploy" && !scriptedDeployFailure(e) {
+			if class == "deploy" && !scriptedDeployFailure(e) && !(r.sc.Reuse && r.claimedFor(id)) {
 				// resourceOffers notifies acquireTasks with a non-blocking send; the simulated master answers
 				// REVIVE within microseconds, so now and then (~1/250 creations) the outcome is dropped before
 				// acquireTasks listens, the deployment times out and deployMu stays taken. A real master offers
 				// later. Outside the anchors of C04/C06: the scenario is not judged.
+				// (With reuseUnlockedTasks a creation for which acquireTasks logged a claim times out for a reason
+				// of the core's own — the claimed task's role never becomes ACTIVE — and IS judged.)
 				return nil, &sim.InfraError{What: fmt.Sprintf("op %+v: deployment timed out with nothing scripted to fail (resourceOffers outcome dropped)", op)}
 			}
 			return fail(rp.err, class)
@@ -651,6 +653,23 @@ func (r *runner) do(op Op) (*sx.Node, error) {
 		return r.lose(op)
 	}
 	return nil, fmt.Errorf("bad op")
+}
+
+// claimLine is what acquireTasks logs for every descriptor it satisfies with a roster task (reuseUnlockedTasks).
+const claimLine = "claiming existing unlocked task for incoming descriptor"
+
+// claimedFor: did acquireTasks claim a task for the environment with this id?
+func (r *runner) claimedFor(id string) bool {
+	if id == "" {
+		return false
+	}
+	b, _ := os.ReadFile(r.w.CoreLog())
+	for _, l := range strings.Split(string(b), "\n") {
+		if strings.Contains(l, claimLine) && strings.Contains(l, "partition="+id) {
+			return true
+		}
+	}
+	return false
 }
 
 // watcherLine is what Environment.subscribeToWfState logs when the workflow of a
